@@ -95,4 +95,110 @@ theorem load_module_swallows_exceptions (st : HState) (sp : PathObj) (cls : Stri
     exact List.any_eq_true.mpr ⟨_, hm, this⟩
   simp [guardedCall, hh]
 
+/-! ### the host side: jedi's own lazy import of an optional dependency (`numpydoc`) -/
+
+/-- the function around the import statement does not touch `sys.path`: the statement is resolved
+against the host's own path (read from the source) -/
+theorem host_import_shape :
+    PathShape.ofString JediModel.Gen.C12.lazyImportPathShape = some .hostOnly := by decide
+
+/-- one docstring look-up: whatever the finder says and whatever sys path the analysed project has,
+a package executed by the host's import statement comes from the host's own `sys.path` -/
+theorem host_import_only_from_host_path (shape : PathShape)
+    (hs : PathShape.ofString JediModel.Gen.C12.lazyImportPathShape = some shape)
+    (provides : String → Bool) (hostPath extra : List String) (st : LazyState) :
+    ∀ d ∈ (lazyImport shape provides hostPath st extra).executed,
+      d ∈ st.executed ∨ (d ∈ hostPath ∧ provides d = true) := by
+  have : shape = .hostOnly := by
+    have h := host_import_shape
+    rw [hs] at h
+    exact Option.some.inj h
+  subst this
+  intro d hd
+  unfold lazyImport at hd
+  split at hd
+  · exact Or.inl hd
+  · split at hd
+    · rename_i d' hp
+      simp only [List.mem_append, List.mem_singleton] at hd
+      rcases hd with hd | rfl
+      · exact Or.inl hd
+      · simp only [provider, searchPath] at hp
+        exact Or.inr ⟨List.mem_of_find?_eq_some hp, by simpa using List.find?_some hp⟩
+    · exact Or.inl hd
+
+/-- every history of look-ups made for queries on any projects, starting in a fresh process:
+only directories of the host's own `sys.path` ever had their package executed -/
+theorem host_import_history_only_host_path (shape : PathShape)
+    (hs : PathShape.ofString JediModel.Gen.C12.lazyImportPathShape = some shape)
+    (provides : String → Bool) (hostPath : List String) (extras : List (List String)) :
+    ∀ d ∈ (lazyHistory shape provides hostPath {} extras).executed, d ∈ hostPath := by
+  suffices H : ∀ (st : LazyState), (∀ d ∈ st.executed, d ∈ hostPath) →
+      ∀ d ∈ (lazyHistory shape provides hostPath st extras).executed, d ∈ hostPath by
+    exact H {} (by intro d hd; cases hd)
+  induction extras with
+  | nil => intro st h; simpa [lazyHistory] using h
+  | cons e es ih =>
+    intro st h
+    simp only [lazyHistory, List.foldl_cons]
+    apply ih
+    intro d hd
+    rcases host_import_only_from_host_path shape hs provides hostPath e st d hd with h1 | h2
+    · exact h d h1
+    · exact h2.1
+
+/-- a directory of the analysed project that the host does not list itself is never executed by it -/
+theorem project_dir_not_executed_by_host (shape : PathShape)
+    (hs : PathShape.ofString JediModel.Gen.C12.lazyImportPathShape = some shape)
+    (provides : String → Bool) (hostPath : List String) (extras : List (List String))
+    (projectDir : String) (hp : projectDir ∉ hostPath) :
+    projectDir ∉ (lazyHistory shape provides hostPath {} extras).executed :=
+  fun hm => hp (host_import_history_only_host_path shape hs provides hostPath extras _ hm)
+
+example : (lazyHistory .hostOnly (fun d => d == "/site" || d == "/proj") ["/lib", "/site"] {}
+    [["/proj", "/lib", "/site"], ["/proj"]]).executed = ["/site"] := by decide
+
+/-- the statement is needed as read: were the project's sys path appended to the host's for the
+import (even behind it, even restored afterwards), a project that ships a package of that name
+gets it executed in the host as soon as the host has none of its own -/
+theorem extended_path_executes_project_witness :
+    (lazyHistory .hostThenExtra (fun d => d == "/proj") ["/lib", "/site"] {}
+      [["/proj", "/lib", "/site"]]).executed = ["/proj"] ∧
+    "/proj" ∉ ["/lib", "/site"] := by decide
+
+/-- at most one package is ever executed (the second statement hits `sys.modules`), for every shape -/
+theorem host_import_at_most_once (shape : PathShape) (provides : String → Bool)
+    (hostPath : List String) (extras : List (List String)) :
+    (lazyHistory shape provides hostPath {} extras).executed.length ≤ 1 := by
+  suffices H : ∀ (st : LazyState), (st.executed.length ≤ 1 ∧ (st.loadedFrom = none → st.executed = [])) →
+      (lazyHistory shape provides hostPath st extras).executed.length ≤ 1 by
+    exact H {} ⟨by simp, fun _ => rfl⟩
+  induction extras with
+  | nil => intro st h; simpa [lazyHistory] using h.1
+  | cons e es ih =>
+    intro st h
+    simp only [lazyHistory, List.foldl_cons]
+    apply ih
+    unfold lazyImport
+    split
+    · exact h
+    · rename_i hn
+      split
+      · simp [h.2 hn]
+      · exact h
+
+/-- the only places in the package that rebind or mutate `sys.path`: the two helper-side swaps
+proved above and the REPL completer of `jedi.utils.setup_readline` (not reachable from Script) -/
+theorem only_sys_path_write_sites : JediModel.Gen.C12.sysPathWriteSites =
+    ["jedi/inference/compiled/access.py:load_module",
+     "jedi/inference/compiled/subprocess/functions.py:get_module_info",
+     "jedi/utils.py:setup_readline.JediRL.complete"] := by decide
+
+/-- the only import statements of modules outside the standard library, jedi and parso -/
+theorem only_foreign_import_sites : JediModel.Gen.C12.foreignImportSites =
+    ["jedi/debug.py:<module>:colorama",
+     "jedi/inference/docstrings.py:_get_numpy_doc_string_cls:numpydoc.docscrape",
+     "jedi/utils.py:<module>:__main__"] ∧
+    JediModel.Gen.C12.lazyImportModule = "numpydoc.docscrape" := by decide
+
 end JediModel.Props.C12
